@@ -116,11 +116,11 @@ Proof. induction p as [|a p IH]; cbn; [reflexivity|]. rewrite N.eqb_refl. exact 
 
 Lemma edge_okb_sound rows cr e :
   In cr rows -> In e (r_edges (cr_row cr)) -> edge_okb (sheet_bases rows) e = true ->
-  match c_cname (e_cond e) with [] => @gen_ok (sheet_names rows) (e_cond e) | nm => ~ @gname (sheet_names rows) nm /\ nm <> s_NoResponse end
-  /\ ~ is_bucket_name (bucket_name (e_cond e)).
+  @cname_ok (sheet_names rows) (e_cond e) /\ ~ is_bucket_name (bucket_name (e_cond e)).
 Proof.
-  intros H1 H2. unfold edge_okb. intros H. apply andb_true_iff in H as [H Hbk]. split.
-  - destruct (c_cname (e_cond e)) as [|a nm] eqn:En; [eapply gen_ok_sheet; eauto|].
+  intros H1 H2. unfold edge_okb, cname_ok. intros H. apply andb_true_iff in H as [H Hbk]. split.
+  - destruct explicit_names_claimed; [exact I|]. cbn [orb] in H.
+    destruct (c_cname (e_cond e)) as [|a nm] eqn:En; [eapply gen_ok_sheet; eauto|].
     apply andb_true_iff in H as [Ha Hb]. split.
     + unfold sheet_names. cbn [gname]. intros Hg. rewrite Hg in Ha. discriminate.
     + intros E. rewrite E, str_eqb_refl in Hb. discriminate.
@@ -171,6 +171,12 @@ Proof.
     + intros c. apply cond_agreesb_sound. unfold cond_agreesb. rewrite E. reflexivity.
     + intros c H. apply cond_agreesb_sound. unfold cond_agreesb. rewrite H. apply orb_true_r.
 Qed.
+
+(* the premise on category names, decided *)
+Theorem names_decided {G : GenNames} c :
+  if explicit_names_claimed then cname_ok c
+  else cname_ok c <-> match c_cname c with [] => gen_ok c | nm => ~ gname nm /\ nm <> s_NoResponse end.
+Proof. unfold cname_ok. destruct explicit_names_claimed; [exact I|tauto]. Qed.
 
 Theorem fragb_sound rows : fragb rows = true -> Forall (@row_ok (sheet_names rows)) rows /\ Forall reads_same rows.
 Proof.
